@@ -43,6 +43,12 @@ func fnName(f *ssa.Function) string {
 	if recv := f.Signature.Recv(); recv != nil {
 		return "(" + typeStr(recv.Type()) + ")." + name
 	}
+	if fo, ok := f.Object().(*types.Func); ok {
+		if _, was := methodAsFunc[fo.Origin()]; was && len(f.Params) > 0 {
+			// a method turned into a function keeps its reference spelling
+			return "(" + typeStr(f.Params[0].Type()) + ")." + name
+		}
+	}
 	if f.Pkg != nil {
 		return shortQual(f.Pkg.Pkg) + "." + name
 	}
@@ -181,6 +187,9 @@ func (t *termer) val(v ssa.Value) string {
 	case *ssa.Builtin:
 		return x.Name()
 	case *ssa.Alloc:
+		if par := paramCell(x); par != nil {
+			return "&" + t.val(par) // the cell of a captured parameter is the parameter
+		}
 		if x.Comment == "complit" || x.Comment == "new" || x.Comment == "" {
 			return "&new(" + typeStr(x.Type().(*types.Pointer).Elem()) + ")#" + allocIndex(x)
 		}
@@ -422,6 +431,10 @@ func (t *termer) call(c *ssa.CallCommon) string {
 	if c.IsInvoke() {
 		name = "invoke:" + typeStr(c.Value.Type()) + "." + c.Method.Name()
 		args = append(args, t.val(c.Value))
+	} else if m, recv := boundMethod(c); m != nil {
+		// a call through a bound method value is the method call
+		name = fnName(m)
+		args = append(args, t.val(recv))
 	} else if f := c.StaticCallee(); f != nil {
 		name = fnName(f)
 	} else if b, ok := c.Value.(*ssa.Builtin); ok {
